@@ -476,7 +476,7 @@ class ArgumentParser(ParserDeprecations, ActionsContainer, ArgumentLinking, argp
                 skip_validation=skip_validation,
             )
 
-        except (TypeError, KeyError) as ex:
+        except (TypeError, KeyError, argparse.ArgumentError) as ex:
             self.error(str(ex), ex)
 
         finally:
@@ -531,7 +531,7 @@ class ArgumentParser(ParserDeprecations, ActionsContainer, ArgumentLinking, argp
                 skip_required=skip_required,
             )
 
-        except (TypeError, KeyError) as ex:
+        except (TypeError, KeyError, argparse.ArgumentError) as ex:
             self.error(str(ex), ex)
 
         self._logger.debug("Parsed object: %s", cfg_obj)
@@ -604,7 +604,7 @@ class ArgumentParser(ParserDeprecations, ActionsContainer, ArgumentLinking, argp
 
             parsed_cfg = self._parse_common(cfg=cfg, **kwargs)
 
-        except (TypeError, KeyError) as ex:
+        except (TypeError, KeyError, argparse.ArgumentError) as ex:
             self.error(str(ex), ex)
 
         self._logger.debug("Parsed environment variables")
@@ -697,7 +697,7 @@ class ArgumentParser(ParserDeprecations, ActionsContainer, ArgumentLinking, argp
                 fail_no_subcommand=fail_no_subcommand,
             )
 
-        except (TypeError, KeyError) as ex:
+        except (TypeError, KeyError, argparse.ArgumentError) as ex:
             self.error(str(ex), ex)
 
         self._logger.debug("Parsed %s string: %s", self.parser_mode, cfg_str)
